@@ -94,5 +94,53 @@ func c07RdataLexErr(c *Ctx, r *Report) {
 	if n == 0 {
 		problems = append(problems, "no success return after the RDATA parse")
 	}
+	// ... and the token loop's end (the lexer has nothing more) is the last place where an error token that a
+	// directive state consumed without looking can still be reported: the plain end-of-input return is behind the same test
+	{
+		var ps []string
+		m := 0
+		for _, rb := range fn.Blocks {
+			ret, ok := rb.Instrs[len(rb.Instrs)-1].(*ssa.Return)
+			if !ok {
+				continue
+			}
+			res := unspill(rb, ret)
+			if b, isB := constBool(res[1]); !isB || b || !isNilConst(res[0]) {
+				continue
+			}
+			// the plain (nil, false): not the result of setParseError / subNext, not the sticky-error entry
+			entry := false
+			for _, f := range factsAt(fn, rb) {
+				if anyIn(sliceOf(f.Atom), readsField("ZoneParser", "parseErr")) {
+					// parseErr != nil came out true
+					if b, ok := f.Atom.(*ssa.BinOp); ok && ((b.Op.String() == "!=" && f.Holds) || (b.Op.String() == "==" && !f.Holds)) {
+						entry = true
+					}
+				}
+			}
+			for _, in := range rb.Instrs {
+				if st, ok := in.(*ssa.Store); ok && readsField("ZoneParser", "parseErr")(st.Addr) {
+					entry = true // an error is recorded right here
+				}
+			}
+			if entry {
+				continue
+			}
+			m++
+			found := false
+			for _, f := range factsAt(fn, rb) {
+				if matchGuard(f, lexErr) {
+					found = true
+				}
+			}
+			if !found {
+				ps = append(ps, fmt.Sprintf("%s: end of input is reported without the lexer's error flag having been tested: an error token that a directive state ($INCLUDE, $ORIGIN ...) consumed without looking is never reported, and everything after it is silently dropped", c.pos(ret.Pos())))
+			}
+		}
+		if m == 0 {
+			ps = append(ps, "no end-of-input return found")
+		}
+		r.check(len(ps) == 0, "C07.R3.sticky", "Next:end-of-input-lexer-error", c.pos(fn.Pos()), "behind !zp.c.l.err", "%s", strings.Join(ps, "; "))
+	}
 	r.check(len(problems) == 0, "C07.R3.sticky", "Next:rdata-lexer-error", c.pos(fn.Pos()), fmt.Sprintf("%d success return(s) behind !zp.c.l.err", n), "%s", strings.Join(problems, "; "))
 }
